@@ -67,7 +67,7 @@ SHUFFLES = ['shuffle', 'bitshuffle', None]
 MARGIN = 64
 FUZZ_SCRIPT = os.path.join(env.VERIF, 'fuzz', 'c14_fuzz.py')
 
-_extra = {'atheris_executions': 0, 'atheris_campaigns': 0, 'atheris_crash_artifacts': 0, 'e2e_asdf_cases': 0, 'chunks_fed': 0, 'decompress_calls': 0}
+_extra = {'atheris_executions': 0, 'atheris_campaigns': 0, 'atheris_crash_artifacts': 0, 'e2e_asdf_cases': 0, 'chunks_fed': 0, 'decompress_calls': 0, 'reused_buffer_calls': 0}
 _last = {'key': None, 'nt': False, 'classes': []}
 
 
@@ -330,7 +330,19 @@ def judge(payload, cbs, shuffle, chunking, types, slack):
     _decompress_once(comp, chunks, raw, int(slack), tail_margin, 'chunked(%d chunks)' % len(chunks))
     if len(chunks) != 1:
         _decompress_once(comp, [stream], raw, int(slack), tail_margin, 'single-chunk')
+        # the same chunking delivered by a reader that fills one fixed buffer (readinto) and hands out a view of it: a chunk's
+        # bytes are only valid until the next chunk is requested
+        _decompress_once(comp, _reused_buffer_reader([bytes(memoryview(c)) for c in chunks]), raw, int(slack), tail_margin, 'chunked(%d chunks, reused read buffer)' % len(chunks))
+        _extra['reused_buffer_calls'] += 1
     return dict(nontrivial=nt, classes=sorted(cls))
+
+
+def _reused_buffer_reader(pieces):
+    buf = bytearray(max([len(p) for p in pieces] + [1]))
+    for p in pieces:
+        buf[:] = b'\xa5' * len(buf)  # whatever the previous chunk held is gone
+        buf[: len(p)] = p
+        yield memoryview(buf)[: len(p)]
 
 
 def judge_e2e(payload, cbs, io_block):
